@@ -741,8 +741,13 @@ func (e *Env) evalCall(n ECall, hint types.Type) TV {
 					if tn, ok := p.Scope().Lookup(sel.Sel).(*types.TypeName); ok {
 						return e.convertTo(tn.Type(), n.Args)
 					}
-					// package-level pure function with an extern contract: os.IsNotExist(err)
-					return e.pureCall(shortPkg(p.Path())+"."+sel.Sel, nil, n.Args, p.Scope().Lookup(sel.Sel))
+					// package-level pure function with an extern contract: os.IsNotExist(err); f#1(x) selects the second result
+					fname, ridx := sel.Sel, 0
+					if k := strings.Index(fname, "#"); k >= 0 {
+						fmt.Sscan(fname[k+1:], &ridx)
+						fname = fname[:k]
+					}
+					return e.pureCallIdx(shortPkg(p.Path())+"."+fname, n.Args, p.Scope().Lookup(fname), ridx)
 				}
 			}
 		}
@@ -1130,6 +1135,10 @@ func (e *Env) methodCall(recv TV, method string, args []Expr) TV {
 
 // pureCall: package-level function with an assumed pure contract, e.g. os.IsNotExist(err), filepath.Join(a,b)
 func (e *Env) pureCall(name string, _ *FuncContract, args []Expr, obj types.Object) TV {
+	return e.pureCallIdx(name, args, obj, 0)
+}
+
+func (e *Env) pureCallIdx(name string, args []Expr, obj types.Object, ridx int) TV {
 	vc := e.vc
 	fn, ok := obj.(*types.Func)
 	if !ok {
@@ -1150,7 +1159,7 @@ func (e *Env) pureCall(name string, _ *FuncContract, args []Expr, obj types.Obje
 		e.fail("function %s has no pure assumed contract", name)
 	}
 	sig := fn.Type().(*types.Signature)
-	fname := fmt.Sprintf("pure_%s_%d", sanitize(fc.Name), 0)
+	fname := fmt.Sprintf("pure_%s_%d", sanitize(fc.Name), ridx)
 	var sorts, ts []string
 	for i, a := range args {
 		var pt types.Type
@@ -1163,7 +1172,7 @@ func (e *Env) pureCall(name string, _ *FuncContract, args []Expr, obj types.Obje
 		sorts = append(sorts, vc.sortOf(pt))
 		ts = append(ts, v.term)
 	}
-	rt := sig.Results().At(0).Type()
+	rt := sig.Results().At(ridx).Type()
 	if sig.Variadic() {
 		fname = fmt.Sprintf("%s_n%d", fname, len(args))
 	}
